@@ -9,8 +9,7 @@
    * a frame carries a snapshot of its macro (parameters and the arguments collected by expandfunc) instead
      of a pointer; `hide` lives in the table, keyed by name (equivalent as long as no directive redefines a
      macro between its name and the end of its own argument list: that is UB / use-after-free in the C);
-   * `#pragma` lines are skipped; if a token of the pragma line would be macro-expanded by the C (`next()`
-     is used to skip) the model answers Err EPragmaExpansion;
+   * `#pragma` lines are skipped without macro expansion (`scan()` is used to skip);
    * if a #define/#undef of macro M is processed between the name M and the end of M's argument list the
      model answers Err EDirectiveInCall;
    * locations, #line bookkeeping and keyword() are not modelled. *)
@@ -401,17 +400,15 @@ Definition line_tail (l : list token) : token * list token :=
   let '(t2, l2) := if is_kind KString t1 then scan l1 else (t1, l1) in
   skip_numbers t2 l2.
 
-(* the #pragma loop `while (tok.kind != TNEWLINE && tok.kind != TEOF) next();` for lines on which next()
-   expands nothing: identifiers that name a macro make the model give up (EPragmaExpansion). *)
+(* the #pragma loop `while (tok.kind != TNEWLINE && tok.kind != TEOF) scan(&tok);` (since /repo 'fix: skip the
+   tokens of a #pragma line without expanding macros'): the rest of the line is dropped unexpanded.  The table
+   argument is kept for the callers' sake. *)
 Fixpoint pragma_skip (tb : table) (t : token) (l : list token) : res (token * list token) :=
   if ends_line t then Ok (t, l)
   else
     match l with
     | [] => Ok (eof_tok, [])
-    | t' :: r =>
-        if is_kind KIdent t' && match macroget tb (lit t') with Some _ => true | None => false end
-        then Err EPragmaExpansion
-        else pragma_skip tb t' r
+    | t' :: r => pragma_skip tb t' r
     end.
 
 Definition mem_str (s : str) (l : list str) : bool := existsb (str_eqb s) l.
@@ -439,7 +436,6 @@ Definition directive (tb : table) (l : list token) : res (table * list token) :=
       let '(n, l2) := scan l1 in
       if is_kind KNumber n then let '(te, r) := line_tail l2 in finish (Ok (tb, te, r)) else Err ELine
     else if str_eqb (lit t) s_pragma then
-      if is_kind KHash (fst (scan l1)) then Err EPragmaExpansion else
       match pragma_skip tb t l1 with
       | Ok (te, r) => finish (Ok (tb, te, r))
       | Err e => Err e
